@@ -176,7 +176,10 @@ const CRC: Jamcrc = Jamcrc::new();
 impl SqPackIndex {
     /// Creates a new reference to an existing index file.
     pub fn from_existing(path: &str) -> Option<Self> {
+        #[cfg(not(feature = "verif_sim"))]
         let mut index_file = std::fs::File::open(path).ok()?;
+        #[cfg(feature = "verif_sim")]
+        let mut index_file = crate::vfs::File::open(path).ok()?;
 
         Self::read(&mut index_file).ok()
     }
